@@ -87,26 +87,35 @@ func c16Basic(r *rt.Rec, input string, caps []int) ([]lexer.Token, bool) {
 			r.Violation("capacity-dependent", fmt.Sprintf("token stream differs between channel capacity %d and %d", caps[0], c), map[string]string{"input": input, "a": tokString(base), "b": tokString(toks)})
 		}
 	}
+	if !c16Shape(r, input, base) {
+		return base, false
+	}
+	return base, true
+}
+
+// c16Shape checks the end-token rule and the ordered-substring rule on one
+// token stream (used for baseline inputs and for every variant of them).
+func c16Shape(r *rt.Rec, input string, base []lexer.Token) bool {
 	if len(base) == 0 {
 		r.Violation("no-end-token/empty-stream", "the lexer closed the channel without emitting EOF or an error", input)
-		return base, false
+		return false
 	}
 	for i, t := range base {
 		end := t.Type == lexer.ItemEOF || t.Type == lexer.ItemError
 		if end && i != len(base)-1 {
 			r.Violation("token-after-end/"+t.Type.String(), fmt.Sprintf("token %d of %d is %s but more tokens follow", i, len(base), t.Type), map[string]string{"input": input, "tokens": tokString(base)})
-			return base, false
+			return false
 		}
 		if !end && i == len(base)-1 {
 			r.Violation("no-end-token/"+t.Type.String(), "the last token is neither EOF nor an error", map[string]string{"input": input, "tokens": tokString(base)})
-			return base, false
+			return false
 		}
 	}
 	if _, ok := embed(input, base); !ok {
 		r.Violation("not-ordered-substrings", "token texts are not non-overlapping substrings of the input in order", map[string]string{"input": input, "tokens": tokString(base)})
-		return base, false
+		return false
 	}
-	return base, true
+	return true
 }
 
 // c16Variants checks keyword/type-name case changes and inter-token
@@ -144,6 +153,8 @@ func c16Variants(r *rt.Rec, rng *rand.Rand, input string, base []lexer.Token) {
 		r.Eval(1)
 		if !ok {
 			r.Violation("lexer-no-termination", "case variant does not terminate", v)
+		} else if !c16Shape(r, v, toks) {
+			// reported
 		} else if gram.KindsString(gram.Kinds(toks)) != gram.KindsString(gram.Kinds(base)) {
 			r.Violation("case-sensitive-keyword", "changing the letter case of keywords / literal type names changes the token kinds", map[string]string{"input": input, "variant": v, "base": tokString(base), "got": tokString(toks)})
 		} else {
@@ -185,6 +196,9 @@ func c16Variants(r *rt.Rec, rng *rand.Rand, input string, base []lexer.Token) {
 	r.Eval(1)
 	if !ok {
 		r.Violation("lexer-no-termination", "whitespace variant does not terminate", v)
+		return
+	}
+	if !c16Shape(r, v, toks) {
 		return
 	}
 	if gram.KindsString(gram.Kinds(toks)) != gram.KindsString(gram.Kinds(base)) {
@@ -300,6 +314,14 @@ func c16Printed(r *rt.Rec, rng *rand.Rand, n int) {
 				cls = l.Type().String()
 			}
 			check(lexer.ItemLiteral, s, "literal", cls)
+			// the same literal with its type name in another letter case: still one
+			// LITERAL token, and (texts being substrings of the input) exactly that text
+			if j := strings.LastIndex(s, `"^^type:`); j >= 0 {
+				// (inputs of the known class backslash-before-closing-quote are masked by that finding)
+				if v := s[:j+8] + flipCase(rng, s[j+8:]); v != s && cls != "backslash-before-closing-quote" {
+					check(lexer.ItemLiteral, v, "literal-type-case", cls)
+				}
+			}
 			break
 		}
 		// bindings and blank nodes
